@@ -1559,6 +1559,8 @@ class TT():
         else:
             k = 0
             for c in self.cores:
+                if k >= len(original_shape):
+                    raise ShapeMismatch('Mode sizes do not match.')
                 if core == None:
                     core = c
                     so_far = core.shape[1]
